@@ -18,17 +18,36 @@
 #define U16BE(d, o) ((uint16_t)((((uint16_t)(d)[(o)]) << 8) | (d)[(o) + 1]))
 #define U32BE(d, o) ((((uint32_t)(d)[(o)]) << 24) | (((uint32_t)(d)[(o) + 1]) << 16) | (((uint32_t)(d)[(o) + 2]) << 8) | (uint32_t)(d)[(o) + 3])
 
-size_t decodeName_wrapper_contract(const uint8_t *data, size_t offset, size_t size, iora_ostr *name)
-__CPROVER_requires(IORA_TRUE && iora_exc == EXC_NONE && size <= DN_MAX_MSG && offset <= size && __CPROVER_is_fresh(data, size))
+#define DECODENAME_REQUIRES \
+__CPROVER_requires(IORA_TRUE && iora_exc == EXC_NONE && size <= DN_MAX_MSG && offset <= size && __CPROVER_is_fresh(data, size)) \
 __CPROVER_requires(__CPROVER_is_fresh(name, sizeof(*name)) && G_msg_size == size)
-__CPROVER_assigns(iora_exc, *name)
-/* W1 a decoded name ends inside the message, at or after its start, and is at most 253 characters */
-__CPROVER_ensures(iora_exc == EXC_NONE ==> (__CPROVER_return_value <= size && __CPROVER_return_value >= offset && name->n <= RFC_MAX_TEXT))
-/* W2 the only error is DnsParseException */
-__CPROVER_ensures(iora_exc == EXC_NONE || iora_exc == EXC_DnsParseException)
-/* W3 nothing at the offset: empty name, nothing consumed */
-__CPROVER_ensures(offset == size ==> (iora_exc == EXC_NONE && __CPROVER_return_value == offset && name->n == 0))
-/* W4 a name needs at least one octet */
+#define DECODENAME_ENSURES \
+/* W1 a decoded name ends inside the message, at or after its start, and is at most 253 characters */ \
+__CPROVER_ensures(iora_exc == EXC_NONE ==> (__CPROVER_return_value <= size && __CPROVER_return_value >= offset && name->n <= RFC_MAX_TEXT)) \
+/* W2 the only error is DnsParseException */ \
+__CPROVER_ensures(iora_exc == EXC_NONE || iora_exc == EXC_DnsParseException) \
+/* W3 nothing at the offset: empty name, nothing consumed */ \
+__CPROVER_ensures(offset == size ==> (iora_exc == EXC_NONE && __CPROVER_return_value == offset && name->n == 0)) \
+/* W4 a name needs at least one octet */ \
 __CPROVER_ensures((iora_exc == EXC_NONE && offset < size) ==> __CPROVER_return_value > offset)
+
+/* the form PROVED in unit dns_name */
+size_t decodeName_wrapper_contract(const uint8_t *data, size_t offset, size_t size, iora_ostr *name)
+DECODENAME_REQUIRES
+__CPROVER_assigns(iora_exc, *name)
+DECODENAME_ENSURES
+;
+
+/* the form USED in unit dns_rdata: the same clauses (same macros) plus a ghost that remembers the returned offset, so that
+ * the callers' contracts can name "the offset where the name ended" (G_name_end) instead of subtracting from their own
+ * result (measured: the backward form `U16BE(data, ret - 10)` costs > 400 s, the forward form `U16BE(data, G_name_end)` 10 s).
+ * G_name_end is verification-only state: no extracted code reads or writes it, so adding the write changes no behaviour
+ * (trusted step, listed in trusted_base). */
+size_t G_name_end;
+size_t decodeName_use_contract(const uint8_t *data, size_t offset, size_t size, iora_ostr *name)
+DECODENAME_REQUIRES
+__CPROVER_assigns(iora_exc, *name, G_name_end)
+DECODENAME_ENSURES
+__CPROVER_ensures(G_name_end == __CPROVER_return_value)
 ;
 #endif
